@@ -1622,12 +1622,20 @@ impl<'a> Monitor<'a>
                                 .find(|i| self.fifo_sender(*i) == self.fifo_sender(m) && self.obls[*i].seq < b.seq)
                                 .map(|i| self.obls[i].clone());
                             let senders: std::collections::BTreeSet<_> = pending.iter().map(|i| self.fifo_sender(*i)).collect();
+                            let same_sender_earlier = earlier.is_some();
                             self.viol("C12", "R-fifo",
                                 format!("postponed-out-of-order:{}-before-{}:senders={}", kind_class(b.kind),
                                     earlier.as_ref().map(|a| kind_class(a.kind)).unwrap_or("?"), senders.len().min(2)),
                                 format!("target {actor} handles {:?}/{:?} (sent by {:?}) before an earlier delivery of the \
                                     same sender {:?}; no assignment of runs to pending deliveries respects every \
                                     sender's order", b.kind, b.payload, b.creator, earlier.map(|a| (a.kind, a.payload, a.creator))));
+                            // Two commands of one sender are also "commands queued by a system": replaying them in
+                            // another order than queued breaks the first clause of C09 as well (seeded change r20-C09).
+                            if same_sender_earlier
+                            {
+                                self.viol("C09", "R-fifo", "postponed-replayed-out-of-queue-order".to_string(),
+                                    format!("target {actor}: postponed command {:?}/{:?} of {:?} is replayed before an earlier                                         postponed command of the same run", b.kind, b.payload, b.creator));
+                            }
                             if let Some(f) = self.fifos.get_mut(&actor) { f.remove(m); }
                             obl = Some(m);
                         }
